@@ -1525,4 +1525,194 @@ theorem bmodels_roundtrip (md : Nat → BModelV) (hmd : ∀ x, (md x).ok) (h9 : 
   simp only [List.length_nil, List.nil_append, List.map_map] at this
   exact this
 
+
+/-! ## detail props -/
+
+theorem rect_res (f : RectFinder) (hf : f.Inv rectKey) (x : List UInt32) :
+    (f.call rectKey x).2.Inv rectKey ∧ f.list <+: (f.call rectKey x).2.list ∧
+    ∀ L, (f.call rectKey x).2.list <+: L → L[(f.call rectKey x).1]? = some x := by
+  have hs := Finder.call_spec rectKey f hf x
+  obtain ⟨⟨y, hy, hk⟩, hp, hi⟩ := hs
+  have : y = x := hk
+  subst this
+  exact ⟨hi, hp, fun L hL => getElem?_of_prefix hL hy⟩
+
+def DetailSt.Inv (s : DetailSt) : Prop := s.fModel.Inv idKey ∧ s.fSprite.Inv rectKey
+
+theorem readDetail_rec (d : DetailV) (h6 : d.f6.length = 6) (mdl : Nat) (dtype ang size : Int) (scale : UInt32) :
+    f32sOf ((detailRec d mdl dtype ang size scale).take 6) = some d.f6 ∧
+    (detailRec d mdl dtype ang size scale).drop 6 = [.int mdl, .int d.leaf, .int d.l0, .int d.l1, .int d.l2, .int d.l3, .int d.styles,
+      .int d.styleCount, .int d.sway, .int ang, .int size, .int d.orient, .int dtype, .f32 scale] := by
+  unfold detailRec
+  rw [List.take_left' (by simp [h6]), List.drop_left' (by simp [h6]), f32sOf_map]
+  exact ⟨rfl, rfl⟩
+
+theorem writeDetail_spec (s : DetailSt) (hs : s.Inv) (d : DetailV) (h6 : d.f6.length = 6) :
+    (writeDetail s d).2.Inv ∧ s.fModel.list <+: (writeDetail s d).2.fModel.list ∧ s.fSprite.list <+: (writeDetail s d).2.fSprite.list ∧
+    ∀ models sprites, (writeDetail s d).2.fModel.list <+: models → (writeDetail s d).2.fSprite.list <+: sprites →
+      readDetail models sprites (writeDetail s d).1 = .ok d := by
+  obtain ⟨hM, hS⟩ := hs
+  cases hk : d.kind with
+  | model name =>
+    obtain ⟨i1, p1, r1⟩ := finder_res s.fModel hM name
+    simp only [writeDetail, hk]
+    refine ⟨⟨i1, hS⟩, p1, List.prefix_refl _, ?_⟩
+    intro models sprites h1 _
+    obtain ⟨e1, e2⟩ := readDetail_rec d h6 (s.fModel.call idKey name).1 0 0 1 oneF
+    simp only [readDetail, e1, e2, if_true, pyIdx_nat, r1 models h1]
+    cases d; simp_all
+  | sprite rect scale =>
+    obtain ⟨i1, p1, r1⟩ := rect_res s.fSprite hS rect
+    simp only [writeDetail, hk]
+    refine ⟨⟨hM, i1⟩, List.prefix_refl _, p1, ?_⟩
+    intro models sprites _ h2
+    obtain ⟨e1, e2⟩ := readDetail_rec d h6 (s.fSprite.call rectKey rect).1 1 0 1 scale
+    have c0 : ¬ ((1 : Int) = 0) := by decide
+    simp only [readDetail, e1, e2, c0, if_false, if_true, pyGet_nat, r1 sprites h2]
+    cases d; simp_all
+  | shape rect scale cross ang size =>
+    obtain ⟨i1, p1, r1⟩ := rect_res s.fSprite hS rect
+    simp only [writeDetail, hk]
+    refine ⟨⟨hM, i1⟩, List.prefix_refl _, p1, ?_⟩
+    intro models sprites _ h2
+    obtain ⟨e1, e2⟩ := readDetail_rec d h6 (s.fSprite.call rectKey rect).1 (if cross then 3 else 2) ang size scale
+    cases cross with
+    | true =>
+      have c0 : ¬ ((3 : Int) = 0) := by decide
+      have c1 : ¬ ((3 : Int) = 1) := by decide
+      simp only [if_true] at e1 e2
+      simp only [readDetail, if_true, e1, e2, c0, c1, if_false, or_true, pyGet_nat, r1 sprites h2]
+      cases d; simp_all
+    | false =>
+      have c0 : ¬ ((2 : Int) = 0) := by decide
+      have c1 : ¬ ((2 : Int) = 1) := by decide
+      simp only [Bool.false_eq_true, if_false] at e1 e2
+      simp only [readDetail, Bool.false_eq_true, if_false, e1, e2, c0, c1, true_or, if_true, pyGet_nat, r1 sprites h2]
+      cases d; simp_all
+
+theorem writeDetails_spec : ∀ (ds : List DetailV) (s : DetailSt), s.Inv → (∀ d ∈ ds, d.f6.length = 6) →
+    s.fModel.list <+: (writeDetails s ds).2.fModel.list ∧ s.fSprite.list <+: (writeDetails s ds).2.fSprite.list ∧
+    ∀ models sprites, (writeDetails s ds).2.fModel.list <+: models → (writeDetails s ds).2.fSprite.list <+: sprites →
+      readDetails models sprites (writeDetails s ds).1 = .ok ds := by
+  intro ds
+  induction ds with
+  | nil => intro s _ _; exact ⟨List.prefix_refl _, List.prefix_refl _, fun _ _ _ _ => rfl⟩
+  | cons d ds ih =>
+    intro s hs h6
+    obtain ⟨i1, p1, p2, r1⟩ := writeDetail_spec s hs d (h6 d (by simp))
+    obtain ⟨q1, q2, rd⟩ := ih _ i1 (fun x hx => h6 x (by simp [hx]))
+    simp only [writeDetails]
+    refine ⟨p1.trans q1, p2.trans q2, ?_⟩
+    intro models sprites h1 h2
+    simp only [readDetails, r1 models sprites (q1.trans h1) (q2.trans h2), rd models sprites h1 h2]
+
+/-- **Detail props**: records, model-name dictionary and sprite table (both de-duplicated by value). -/
+theorem details_roundtrip (ds : List DetailV) (h6 : ∀ d ∈ ds, d.f6.length = 6) (models : List Nat) (sprites : List (List UInt32))
+    (h1 : (writeDetails ⟨Finder.mk' idKey [], Finder.mk' rectKey []⟩ ds).2.fModel.list <+: models)
+    (h2 : (writeDetails ⟨Finder.mk' idKey [], Finder.mk' rectKey []⟩ ds).2.fSprite.list <+: sprites) :
+    readDetails models sprites (writeDetails ⟨Finder.mk' idKey [], Finder.mk' rectKey []⟩ ds).1 = .ok ds :=
+  (writeDetails_spec ds _ ⟨Finder.mk'_inv _ _, Finder.mk'_inv _ _⟩ h6).2.2 models sprites h1 h2
+
+/-! ## static props: model indices and leaf-index array -/
+
+theorem resolve_perm (L : List Nat) : ∀ {l1 l2 : List Nat}, l1.Perm l2 → ∀ xs, resolveArr L l1 = .ok xs →
+    ∃ ys, resolveArr L l2 = .ok ys ∧ xs.Perm ys := by
+  intro l1 l2 hp
+  induction hp with
+  | nil => intro xs h; exact ⟨xs, h, List.Perm.refl _⟩
+  | @cons a la lb _ ih =>
+    intro xs h
+    simp only [resolveArr] at h
+    cases h1 : L[a]? with
+    | none => simp [h1] at h
+    | some x =>
+      cases h2 : resolveArr L la with
+      | error e => simp [h1, h2] at h
+      | ok r =>
+        simp only [h1, h2, Except.ok.injEq] at h; subst h
+        obtain ⟨ys, hy, hp'⟩ := ih r h2
+        exact ⟨x :: ys, by simp only [resolveArr, h1, hy], hp'.cons x⟩
+  | swap a b l =>
+    intro xs h
+    simp only [resolveArr] at h
+    cases ha : L[a]? with
+    | none => simp [ha] at h
+    | some x =>
+      cases hb : L[b]? with
+      | none => simp [ha, hb] at h
+      | some y =>
+        cases hr : resolveArr L l with
+        | error e => simp [ha, hb, hr] at h
+        | ok r =>
+          simp only [ha, hb, hr, Except.ok.injEq] at h; subst h
+          exact ⟨x :: y :: r, by simp only [resolveArr, ha, hb, hr], List.Perm.swap x y r⟩
+  | trans _ _ ih1 ih2 =>
+    intro xs h
+    obtain ⟨ys, hy, hp1⟩ := ih1 xs h
+    obtain ⟨zs, hz, hp2⟩ := ih2 ys hy
+    exact ⟨zs, hz, hp1.trans hp2⟩
+
+/-- the reader's props agree with the written ones: same model, the same *set* of leafs -/
+def propsAgree : List PropRefV → List PropRefV → Prop
+  | [], [] => True
+  | r :: rs, p :: ps => r.model = p.model ∧ r.leafs.Perm p.leafs ∧ propsAgree rs ps
+  | _, _ => False
+
+def PropIdxSt.Inv (s : PropIdxSt) : Prop := s.fModel.Inv idKey ∧ s.fLeaf.Inv idKey
+
+theorem writePropIdx_spec : ∀ (ps : List PropRefV) (s : PropIdxSt), s.Inv →
+    s.fModel.list <+: (writePropIdx s ps).2.fModel.list ∧ s.fLeaf.list <+: (writePropIdx s ps).2.fLeaf.list ∧
+    ∃ newArr, (writePropIdx s ps).2.leafArray = s.leafArray ++ newArr ∧
+      ∀ models leafs, (writePropIdx s ps).2.fModel.list <+: models → (writePropIdx s ps).2.fLeaf.list <+: leafs →
+        ∃ objs, resolveArr leafs newArr = .ok objs ∧
+          ∀ (pre post : List Nat), pre.length = s.leafArray.length →
+            ∃ rs, readPropIdx models (pre ++ (objs ++ post)) (writePropIdx s ps).1 = .ok rs ∧ propsAgree rs ps := by
+  intro ps
+  induction ps with
+  | nil =>
+    intro s _
+    refine ⟨List.prefix_refl _, List.prefix_refl _, [], by simp [writePropIdx], ?_⟩
+    intro models leafs _ _
+    exact ⟨[], rfl, fun _ _ _ => ⟨[], rfl, trivial⟩⟩
+  | cons p ps ih =>
+    intro s hs
+    obtain ⟨hM, hL⟩ := hs
+    obtain ⟨iM, pM, rM⟩ := finder_res s.fModel hM p.model
+    obtain ⟨iL, pL, lL, rL⟩ := callAll_res p.leafs s.fLeaf hL
+    obtain ⟨q1, q2, nA, eA, rd⟩ := ih ⟨(s.fModel.call idKey p.model).2, (Finder.callAll idKey s.fLeaf p.leafs).2,
+      s.leafArray ++ (Finder.callAll idKey s.fLeaf p.leafs).1.mergeSort (fun a b => decide (a ≤ b))⟩ ⟨iM, iL⟩
+    simp only [writePropIdx]
+    refine ⟨pM.trans q1, pL.trans q2, (Finder.callAll idKey s.fLeaf p.leafs).1.mergeSort (fun a b => decide (a ≤ b)) ++ nA,
+      by rw [eA]; simp, ?_⟩
+    intro models leafs h1 h2
+    obtain ⟨objs, ho, rdl⟩ := rd models leafs h1 h2
+    have hperm := List.mergeSort_perm (Finder.callAll idKey s.fLeaf p.leafs).1 (fun a b => decide (a ≤ b))
+    obtain ⟨ys, hy, hpy⟩ := resolve_perm leafs hperm.symm p.leafs (rL leafs (q2.trans h2))
+    refine ⟨ys ++ objs, resolveArr_append _ _ _ _ _ hy ho, ?_⟩
+    intro pre post hpre
+    have hylen : ys.length = p.leafs.length := hpy.length_eq.symm
+    obtain ⟨rs, hrs, hag⟩ := rdl (pre ++ ys) post (by
+      simp only [List.length_append, hpre, hylen, List.length_mergeSort, lL])
+    refine ⟨{ model := p.model, leafs := ys } :: rs, ?_, ⟨rfl, hpy.symm, hag⟩⟩
+    simp only [readPropIdx, rM models (q1.trans h1)]
+    have hsl : pySlice (pre ++ (ys ++ objs ++ post)) s.leafArray.length p.leafs.length = ys := by
+      rw [← hpre, ← hylen, List.append_assoc]
+      exact pySlice_mid pre ys (objs ++ post)
+    simp only [List.append_assoc] at hrs hsl ⊢
+    rw [hrs, hsl]
+
+/-- **Static props: model dictionary and leaf-index array.** Every prop is read back with its model
+name and, as a set, its leafs (the writer sorts each prop's leaf indices). -/
+theorem propidx_roundtrip (visleafs models leafs : List Nat) (ps : List PropRefV)
+    (h1 : (writePropIdx ⟨Finder.mk' idKey [], Finder.mk' idKey visleafs, []⟩ ps).2.fModel.list <+: models)
+    (h2 : (writePropIdx ⟨Finder.mk' idKey [], Finder.mk' idKey visleafs, []⟩ ps).2.fLeaf.list <+: leafs) :
+    ∃ leafList rs, resolveArr leafs (writePropIdx ⟨Finder.mk' idKey [], Finder.mk' idKey visleafs, []⟩ ps).2.leafArray = .ok leafList ∧
+      readPropIdx models leafList (writePropIdx ⟨Finder.mk' idKey [], Finder.mk' idKey visleafs, []⟩ ps).1 = .ok rs ∧ propsAgree rs ps := by
+  obtain ⟨_, _, nA, eA, rd⟩ := writePropIdx_spec ps ⟨Finder.mk' idKey [], Finder.mk' idKey visleafs, []⟩
+    ⟨Finder.mk'_inv _ _, Finder.mk'_inv _ _⟩
+  obtain ⟨objs, ho, rdl⟩ := rd models leafs h1 h2
+  obtain ⟨rs, hrs, hag⟩ := rdl [] [] rfl
+  simp only [List.nil_append] at eA
+  exact ⟨objs, rs, by rw [eA]; exact ho, by simpa using hrs, hag⟩
+
 end C11
